@@ -2,7 +2,8 @@ package template
 
 import (
 	"go/types"
-	"strings"
+	"unicode"
+	"unicode/utf8"
 )
 
 // Var represents a method variable/parameter.
@@ -97,7 +98,9 @@ func varName(vr *types.Var, suffix string) string {
 func varNameForType(t types.Type) string {
 	nestedType := func(t types.Type) string {
 		if t, ok := t.(*types.Basic); ok {
-			return deCapitalise(t.String())
+			// Name() and not String(): the latter is "unsafe.Pointer" for
+			// unsafe.Pointer, which is not an identifier.
+			return deCapitalise(t.Name())
 		}
 		return varNameForType(t)
 	}
@@ -164,5 +167,16 @@ func basicTypeVarName(b *types.Basic) string {
 	return "v"
 }
 
-func capitalise(s string) string   { return strings.ToUpper(s[:1]) + s[1:] }
-func deCapitalise(s string) string { return strings.ToLower(s[:1]) + s[1:] }
+func capitalise(s string) string   { return mapFirstRune(s, unicode.ToUpper) }
+func deCapitalise(s string) string { return mapFirstRune(s, unicode.ToLower) }
+
+// mapFirstRune applies f to the first rune of s. Working on the first rune
+// rather than on the first byte keeps names that start with a multi-byte
+// letter valid UTF-8.
+func mapFirstRune(s string, f func(rune) rune) string {
+	r, size := utf8.DecodeRuneInString(s)
+	if r == utf8.RuneError {
+		return s
+	}
+	return string(f(r)) + s[size:]
+}
